@@ -9,6 +9,8 @@
 set -u
 export CARGO_NET_OFFLINE=true
 SECOND_PASS="C02 C05 C13 C14 C16 C20"
+# thorough tier: also the checks whose thorough exploration is short enough to run twice
+SECOND_PASS_THOROUGH="C02 C04 C05 C06 C08 C09 C11 C12 C13 C14 C15 C16 C17 C19 C20"
 cd /verif/mc || exit 2
 mkdir -p /verif/target
 build() {  # $1 = cargo profile flag, $2 = log
@@ -35,7 +37,8 @@ prev=""
 for a in "$@"; do [ "$prev" = "--tier" ] && tier=$a; prev=$a; done
 $primary "$@"; c1=$?
 c2=0
-if [ "$tier" = "thorough" ] || echo " $SECOND_PASS " | grep -q " $id "; then
+sp="$SECOND_PASS"; [ "$tier" = "thorough" ] && sp="$SECOND_PASS_THOROUGH"
+if echo " $sp " | grep -q " $id "; then
   build "--profile nodebug" /verif/target/build-nodebug.log
   echo "[$id] ---- second pass: nodebug build (debug assertions and overflow checks off)"
   BPPMC_PROFILE=nodebug $second "$@" | sed -e "/^VIOLATION\|^KNOWN-FINDING\|^MACHINERY-ERROR/!s/^/[nodebug] /"; c2=${PIPESTATUS[0]}
